@@ -683,11 +683,6 @@ def _items(args):
     return list(args)
 
 
-def _no_opaque(items):
-    if any(isinstance(x, Opaque) for x in items):
-        raise Undecided("items of a type the reference does not model")
-
-
 def _ordering_ambiguous(strings):
     # code-point order and UTF-16 order differ only between U+E000..U+FFFF and the astral planes
     if any(0xE000 <= ord(ch) <= 0xFFFF for s in strings for ch in s):
@@ -700,7 +695,8 @@ def f_count(args):
 
 def _extreme(args, pick):
     items = _items(args)
-    _no_opaque(items)
+    if items and all(isinstance(x, Opaque) for x in items) and len(set(x.kind for x in items)) == 1:
+        raise Undecided("items of one type the reference does not model (dates and durations are comparable)")
     if not items:
         return None
     if all(isnum(x) for x in items):
@@ -726,7 +722,6 @@ def f_max(args):
 
 def _numbers(args):
     items = _items(args)
-    _no_opaque(items)
     if not all(isnum(x) for x in items):
         return None
     return items
